@@ -1,9 +1,9 @@
 #!/bin/bash
-# usage: crossrun.sh <out log> [jobs] : every stored behaviour-preserving change (selftest/benign) against every check;
-# prints the non-passing (exit 1 = false alarm, exit 2 = undecided) ones. A development aid, not a registered check.
+# usage: crossrun.sh <out log> [jobs] : every stored behaviour-preserving change (selftest/benign, identical diffs once) against
+# every check; prints the non-passing (exit 1 = false alarm, exit 2 = undecided) ones. A development aid, not a registered check.
 OUT=${1:-/tmp/crossrun.log}; J=${2:-2}
 : > $OUT
 one() { f=$1; r=$(/verif/tools/mutall.sh "patch -p1 -s < $f" | grep -v "^(done)" | cut -c1-260); echo "### $(basename $f .diff)"$'\n'"$r"; }
 export -f one
-ls /verif/selftest/benign/*.diff | xargs -P $J -I{} bash -c 'one {}' >> $OUT 2>&1
+md5sum /verif/selftest/benign/*.diff | sort | awk '!seen[$1]++ {print $2}' | xargs -P $J -I{} bash -c 'one {}' >> $OUT 2>&1
 echo "ALL DONE" >> $OUT
